@@ -366,7 +366,7 @@ def pipeline_render(cfg):
             ctx[c] = tag(c)
     ctx["ff"] = tag("ff")
     ctx["gg"] = lambda k: tag("gg%d" % k)
-    ctx["ns"] = types.SimpleNamespace(ff=lambda a, b: tag("nsff%s%s" % (a, b)))
+    ctx["ns"] = types.SimpleNamespace(ff=lambda a, b: tag("nsff%s%s" % (a, b)), mk=lambda k: types.SimpleNamespace(ap=tag("mk%d" % k)))
     ctx["aa"], ctx["bb"] = 1, 2
     value = " <v&'\xe9> "
     table = {"x": filters.xml_escape, "h": filters.html_escape, "u": filters.url_escape, "trim": filters.trim,
@@ -833,7 +833,7 @@ def pipeline_render_nonexpr(cfg, where):
             ctx[c] = tag(c)
     ctx["ff"] = tag("ff")
     ctx["gg"] = lambda k: tag("gg%d" % k)
-    ctx["ns"] = types.SimpleNamespace(ff=lambda a, b: tag("nsff%s%s" % (a, b)))
+    ctx["ns"] = types.SimpleNamespace(ff=lambda a, b: tag("nsff%s%s" % (a, b)), mk=lambda k: types.SimpleNamespace(ap=tag("mk%d" % k)))
     ctx["aa"], ctx["bb"] = 1, 2
     value = " <v&'\xe9> "
     table = {"x": filters.xml_escape, "h": filters.html_escape, "u": filters.url_escape, "trim": filters.trim,
